@@ -1,5 +1,6 @@
 import MosdnsVerif.Base.Hex
 import MosdnsVerif.Model.C09
+import MosdnsVerif.Gen.Facts
 
 namespace Driver.C09
 open Model.C09
@@ -66,6 +67,13 @@ def handle : List String → String
     | _, _ => "bad-op"
   | ["reuse", ops] =>
     runOps (fun (s : Reuse) l => (s.step l).map (fun s' => (s', Out.none))) (fun s => toString s.outstanding) rlabel? ({} : Reuse) (ops.splitOn ",")
+  | ["pick", n, rooms] =>
+    -- n queries one after the other over connections with the given rooms, with the loop as the source has it now
+    match n.toNat?, (rooms.splitOn ",").mapM String.toNat? with
+    | some n, some rs =>
+      let p := pickN (Gen.Facts.c09PipelinePickStopsAtFirstReservation == some true) (Gen.Facts.c09PipelineMaxReserveAttempt.getD 0) n rs
+      toString p.1 ++ ":" ++ toString (total p.2)
+    | _, _ => "bad-op"
   | _ => "bad-op"
 
 end Driver.C09
